@@ -107,7 +107,7 @@ func Guards(fn *ssa.Function, target *ssa.BasicBlock) []Cond {
 		}
 		for i, s := range b.Succs {
 			if s == target && len(s.Preds) == 1 || EdgeDominates(fn, Edge{b, s}, target) {
-				out = append(out, Cond{V: iff.Cond, True: i == 0, At: b})
+				out = append(out, NormCond(Cond{V: iff.Cond, True: i == 0, At: b}))
 			}
 		}
 	}
@@ -136,7 +136,7 @@ func (p Path) Conds() []Cond {
 		if !ok || len(b.Succs) != 2 || b.Succs[0] == b.Succs[1] {
 			continue
 		}
-		out = append(out, Cond{V: iff.Cond, True: b.Succs[0] == p[i+1], At: b, Idx: i})
+		out = append(out, NormCond(Cond{V: iff.Cond, True: b.Succs[0] == p[i+1], At: b, Idx: i}))
 	}
 	return out
 }
